@@ -143,10 +143,10 @@ fn check(id: &str, tier: &str) -> i32 {
 	if p.engine == 0 || p.engine == 2 {
 		exes.push(("h", exe.clone()));
 	}
-	if p.engine == 3 {
+	if p.engine == 3 || p.engine == 5 {
 		exes.push(("i", exe.with_file_name("pdbv_io")));
 	}
-	if p.engine == 1 || p.engine == 2 {
+	if p.engine == 1 || p.engine == 2 || p.engine == 5 {
 		exes.push(("s", shuttle_exe));
 	}
 	// with two engines the shards are split between them
